@@ -126,6 +126,8 @@ class Builder:
             nm = v["$obj"]
             if nm not in self.objs:
                 self.objs[nm] = Opaque(nm, v.get("classes", ()))
+                for mname, mv in (v.get("methods") or {}).items():
+                    setattr(self.objs[nm], mname, (lambda val: (lambda *a, **k: val))(self.obj(mv)))
                 for a, av in (v.get("attrs") or {}).items():
                     try:
                         setattr(self.objs[nm], a, self.obj(av))
@@ -286,6 +288,9 @@ class OldRewriter(ast.NodeTransformer):
             finally:
                 self.depth -= 1
         n = self.generic_visit(n)
+        if isinstance(n.func, ast.Name) and n.func.id == "ghost" and self.depth:
+            n.func = ast.copy_location(ast.Name(id="__old_ghost", ctx=ast.Load()), n.func)
+            return n
         if isinstance(n.func, ast.Name) and n.func.id == "implies" and len(n.args) == 2:   # lazy, as in the logic
             return ast.copy_location(ast.BoolOp(op=ast.Or(), values=[ast.UnaryOp(op=ast.Not(), operand=n.args[0]), n.args[1]]), n)
         if isinstance(n.func, ast.Name) and n.func.id == "ite" and len(n.args) == 3:
@@ -443,7 +448,15 @@ def run(rp):
                 raise Undecidable("parameter %s has no declared type" % p)
     except Undecidable as e:
         return {"reproduced": None, "detail": "inputs not concretisable: %s" % e}
+    # ghost parameters that stand for class-level state are installed on the real class for the duration of the call
+    ghosts, installed = {}, []
+    try:
+        for g, gty in (ctx.get("ghost_params") or {}).items():
+            ghosts[g] = b.build(parse_ty(gty), "ghost_" + g)
+    except Undecidable as e:
+        return {"reproduced": None, "detail": "ghost state not concretisable: %s" % e}
     nat = Native(b, natives)
+    nat.ns["ghost"] = lambda name: ghosts[name]
     nat.params = list(args)
     mod = importlib.import_module("twosigma.memento." + ctx["module"])
     for name in dir(mod):
@@ -474,6 +487,13 @@ def run(rp):
             target = getattr(target, part)
     fn = getattr(target, ctx["name"]) if ctx["cls"] else getattr(mod, ctx["name"])
     call_args = [args[p] for p in ctx["params"] if p in args]
+    for cname, attr, g in ctx.get("class_state") or []:
+        if g in ghosts and hasattr(mod, cname):
+            klass = getattr(mod, cname)
+            installed.append((klass, attr, getattr(klass, attr)))
+            setattr(klass, attr, ghosts[g])
+    old_ghosts = copy.deepcopy(ghosts)
+    nat.ns["__old_ghost"] = lambda name: old_ghosts[name]
     hooks = getattr(RB, "PATCHES", {}).get(rp["function"]) if "RB" in dir() else None
     raised, result = None, None
     try:
@@ -484,6 +504,12 @@ def run(rp):
             result = fn(*call_args)
     except BaseException as e:  # the real code's exception is an observation
         raised = e
+    for klass, attr, _ in installed:
+        for cname, a2, g in ctx.get("class_state") or []:
+            if a2 == attr:
+                ghosts[g] = getattr(klass, attr)
+    for klass, attr, prev in installed:
+        setattr(klass, attr, prev)
     env = dict(args)
     env.update(old)
     env["result"] = env["ret"] = result
